@@ -244,3 +244,48 @@ func VerifH_slh_lengths() {
 	verifrt.Assert((e1 == nil) == (kl == int(2*p.n)) && (e2 == nil) == (kl == int(4*p.n)), "keys of the wrong length rejected")
 	verifrt.Reach("end")
 }
+
+// ---- C20: randomized SLH-DSA signing hands one fresh n-byte draw to the internal signer;
+// deterministic signing uses PK.seed; key generation draws three n-byte seeds.
+func VerifH_c20_slh_sign() {
+	p := newParams(pickShape(), stubHashes(func(*address, []byte) {}, func(*address) {}, nil))
+	var gotRnd, gotMsg []byte
+	verifrt.Summarize("slhdsa.SecretKey).signInternal", func(sk *SecretKey, msg []byte, addrnd []byte) []byte {
+		gotRnd, gotMsg = addrnd, msg
+		return []byte{1}
+	})
+	pkSeed := verifrt.Bytes("pkseed", int(p.n))
+	sk := &SecretKey{skSeed: make([]byte, p.n), skPrf: make([]byte, p.n), pkSeed: pkSeed, pkRoot: make([]byte, p.n), p: p}
+	m := verifrt.Bytes("m", verifrt.Choice("ml", 3))
+	ctx := verifrt.Bytes("ctx", verifrt.Choice("cl", 3))
+	d0 := verifrt.Draws()
+	_, err := sk.Sign(m, ctx)
+	verifrt.Assert(err == nil, "Sign succeeds")
+	verifrt.Assert(verifrt.Draws() == d0+1, "exactly one draw per signature")
+	draw := verifrt.DrawBytes(d0)
+	verifrt.Assert(len(draw) == int(p.n), "the draw has n bytes")
+	verifrt.AssertEq(gotRnd, draw, "the internal signer receives exactly the drawn bytes")
+	verifrt.AssertEq(gotMsg, append(append([]byte{0, byte(len(ctx))}, ctx...), m...), "M' = 0 || len(ctx) || ctx || M")
+	d1 := verifrt.Draws()
+	sk.SignDeterministic(m, ctx)
+	verifrt.Assert(verifrt.Draws() == d1, "deterministic signing draws nothing")
+	verifrt.AssertEq(gotRnd, pkSeed, "deterministic signing uses PK.seed as the randomizer")
+	verifrt.Reach("end")
+}
+
+func VerifH_c20_slh_keygen() {
+	p := newParams(pickShape(), stubHashes(func(*address, []byte) {}, func(*address) {}, nil))
+	var seeds [3][]byte
+	verifrt.Summarize("slhdsa.params).slhKeygenInternal", func(pp *params, skSeed, skPrf, pkSeed []byte) (*SecretKey, *PublicKey) {
+		seeds = [3][]byte{skSeed, skPrf, pkSeed}
+		return nil, nil
+	})
+	d0 := verifrt.Draws()
+	p.KeyGen()
+	verifrt.Assert(verifrt.Draws() == d0+3, "three draws")
+	for i := 0; i < 3; i++ {
+		verifrt.Assert(len(verifrt.DrawBytes(d0+i)) == int(p.n), "each seed is a full n-byte draw")
+		verifrt.AssertEq(seeds[i], verifrt.DrawBytes(d0+i), "SK.seed, SK.prf, PK.seed are three separate draws")
+	}
+	verifrt.Reach("end")
+}
